@@ -1,3 +1,102 @@
-(* C13/Props.v -- pinned property theorems (placeholder while the proofs are being built). *)
+(* C13/Props.v -- pinned property theorems; nothing but statements closed by `exact`.
+   Reading guide.  [ser]/[deser]/[crc]: the external payload serializer (bitcode) and CRC-32; the
+   theorems hold for ANY functions with the three visible premises.  [ES] is the list of records
+   the coordinator has written (any list), [log_bytes .. ES] the log file; a crash leaves its
+   first k bytes; [restart] = a fresh coordinator with the log attached + recover_from_wal at
+   clock `now`.  [replies now c ss] are the replies of any continuation ss of coordinator calls
+   (begin / vote / commit / abort / complete_* / cleanup_timeouts at any later times). *)
 From NV.Common Require Import Base WalFormat.
+From NV.C13 Require Import Model Proofs Inst.
+From NV.gen Require Import Gen_C13.
 Open Scope N_scope.
+
+(* Clause 1 + "crash at any byte": if the TxComplete record of tx (either outcome) lies
+   completely inside the surviving prefix, then after the restart tx is not pending, and for EVERY
+   continuation that does not begin the same id again: every commit / abort / complete_* aimed at
+   it fails with "not found" and no timeout sweep ever reports it.  So a committed transaction
+   is never afterwards aborted or timed out, and an aborted one is never committed. *)
+Theorem C13_logged_outcome_never_reversed :
+  forall (ser : tentry -> list byte) (deser : list byte -> option tentry) (crc : list byte -> N),
+  (forall e, deser (ser e) = Some e) -> (forall d, crc d < 4294967296) -> (forall e, wf ser e) ->
+  forall now ES k i tx outcome,
+  nth_error ES i = Some (TComplete tx outcome) ->
+  (bytes_upto ser crc true ES (S i) <= k)%nat ->
+  forallb (fun e => negb (is_begin tx e)) (skipn (S i) ES) = true ->
+  exists d stats,
+    restart deser crc gen_tx_tail_repair gen_vote_scan_live gen_vote_first_wins now
+            (firstn k (log_bytes ser crc true ES)) = Some (d, stats) /\
+    aget (pending (co d)) tx = None /\
+    forall ss, forallb (fun s => negb (begins tx s)) ss = true ->
+      forall s out, In (s, out) (replies now (co d) ss) ->
+        (targets tx s = true -> out = [1; 1]) /\ (forall t, s = Timeouts t -> ~ In tx (tl out)).
+Proof.
+  intros ser deser crc. exact (outcome_never_reversed ser deser crc gen_vote_scan_live gen_vote_first_wins).
+Qed.
+
+(* Clauses 2-4 + "crash at any byte": the restart never fails; the restarted coordinator holds
+   no lock; a transaction whose last logged phase (in the surviving records) is Prepared /
+   Committing / Aborting comes back in that phase with the votes the log scan accepted and its
+   natural completion call succeeds and removes it; every other transaction (still Preparing,
+   completed, unknown) is not pending. *)
+Theorem C13_recovered_table :
+  forall (ser : tentry -> list byte) (deser : list byte -> option tentry) (crc : list byte -> N),
+  (forall e, deser (ser e) = Some e) -> (forall d, crc d < 4294967296) -> (forall e, wf ser e) ->
+  forall now ES k tx,
+  let s := fold_left (scan_step gen_vote_scan_live) (firstn (complete ser crc true ES k) ES) sc0 in
+  exists d stats,
+    restart deser crc gen_tx_tail_repair gen_vote_scan_live gen_vote_first_wins now
+            (firstn k (log_bytes ser crc true ES)) = Some (d, stats) /\
+    locks (co d) = [] /\
+    match aget (in_prog s) tx with
+    | Some (ps, vs, ph) =>
+        if restorable ph then
+          let t := Tx ps ph (restore_votes gen_vote_first_wins vs) now 5000 in
+          aget (pending (co d)) tx = Some t /\
+          let call := if ph =? PREPARED then Commit tx (yes_handles t)
+                      else if ph =? COMMITTING then CompleteCommit tx else CompleteAbort tx in
+          snd (step now (co d) call) = [0] /\
+          aget (pending (fst (fst (step now (co d) call)))) tx = None
+        else aget (pending (co d)) tx = None
+    | None => aget (pending (co d)) tx = None
+    end.
+Proof.
+  intros ser deser crc. exact (recovered_pending_table ser deser crc gen_vote_scan_live gen_vote_first_wins).
+Qed.
+
+(* "across repeated restarts": a restart leaves a clean log file, coordinator calls keep it clean,
+   so both theorems above apply to every later crash at any byte as well. *)
+Theorem C13_repeated_restarts :
+  forall (ser : tentry -> list byte) (deser : list byte -> option tentry) (crc : list byte -> N),
+  (forall e, deser (ser e) = Some e) -> (forall d, crc d < 4294967296) -> (forall e, wf ser e) ->
+  (forall now ES k d stats,
+     restart deser crc gen_tx_tail_repair gen_vote_scan_live gen_vote_first_wins now
+             (firstn k (log_bytes ser crc true ES)) = Some (d, stats) -> clean ser crc d)
+  /\ (forall d s, clean ser crc d -> clean ser crc (fst (dstep ser crc d s))).
+Proof.
+  intros ser deser crc H1 H2 H3. split.
+  - exact (restart_clean ser deser crc gen_vote_scan_live gen_vote_first_wins H1 H2 H3).
+  - exact (steps_keep_clean ser crc).
+Qed.
+
+(* commit logs the outcome before it releases any lock *)
+Theorem C13_completion_logged_before_release : forall now c tx order c' w out,
+  step now c (Commit tx order) = (c', w, out) -> out = [0] ->
+  exists rest, w = TPhase tx PREPARED COMMITTING :: TComplete tx true :: rest
+               /\ forall e, In e rest -> match e with TLockRelease _ _ | TAllReleased _ => True | _ => False end.
+Proof. exact complete_logged_before_release. Qed.
+
+(* non-vacuity: a concrete log with a committed transaction, a prepared one and one still
+   collecting votes satisfies the hypotheses (position 5 holds TxComplete of tx 0) *)
+Example C13_hypotheses_satisfiable :
+  let ES := [TBegin 0 [0; 1]; TVote 0 0 (VYes 0); TVote 0 1 (VYes 1); TPhase 0 0 1; TPhase 0 1 2; TComplete 0 true;
+             TBegin 1 [2]; TVote 1 2 (VYes 2); TPhase 1 0 1; TBegin 2 [0]] in
+  nth_error ES 5 = Some (TComplete 0 true) /\
+  forallb (fun e => negb (is_begin 0 e)) (skipn 6 ES) = true /\
+  aget (in_prog (fold_left (scan_step true) ES sc0)) 1 = Some ([2], [(2, VYes 2)], PREPARED) /\
+  aget (in_prog (fold_left (scan_step true) ES sc0)) 2 = Some ([0], [], PREPARING).
+Proof. vm_compute. repeat split; reflexivity. Qed.
+
+Print Assumptions C13_logged_outcome_never_reversed.
+Print Assumptions C13_recovered_table.
+Print Assumptions C13_repeated_restarts.
+Print Assumptions C13_completion_logged_before_release.
